@@ -9,6 +9,10 @@ func init() {
 	}
 	addStages("C01", "exploration", e2, chaos())
 	addStages("C04", "fault_enumeration", e2, chaos())
+	// node level of C02: the apply records of every state machine incarnation of a chaos lifetime
+	// (index -> entry, first applier fixes it), final lists equal on all replicas, every replica
+	// equal to the replay of the committed log
+	addStages("C02", "exploration", e2, chaos())
 	addStages("C02", "exploration", e2,
 		Stage{Engine: "clusterrun", Mode: "learner", BatchesQ: 6, BatchesT: 12, Par: 6, TimeoutQ: 900, TimeoutT: 3600})
 	// the same stage decides the clause of C01 about operations that end without a result on a
